@@ -77,6 +77,14 @@ def handleC10 (cmd : String) (args : List Sexp) : Option Sexp :=
       let t ← tree? t; let dir ← dir.mapM asAtom?; let b ← nats? b
       let fs := runTasks (fun _ => none) (tasksTree [] t)
       pure (optTreeSx (load (depth t) (writeLeaf fs dir key b) []))
+  -- (c10.resave tree1 tree2): save tree1, then tree2 into the same directory: (paths present, loaded)
+  | "c10.resave", [t1, t2] => do
+      let t1 ← tree? t1; let t2 ← tree? t2
+      let ts1 := tasksTree [] t1
+      let ts2 := tasksTree [] t2
+      let fs := runTasks (runTasks (fun _ => none) ts1) ts2
+      let paths := ((ts1 ++ ts2).map (·.1)).eraseDups.filter fun p => (fs p).isSome
+      pure (.list [.list (paths.map pathSx), optTreeSx (load (depth t2) fs [])])
   | _, _ => none
 
 end TdVerif.Drive
